@@ -95,8 +95,68 @@ def gen_program(rng):
     return final, history
 
 
+def pointer_sessions(rng, n):
+    """The DATA pointer belongs to the run, not to the line being executed: a program that has read k constants and stops
+    (STOP, END, an error) leaves the pointer at k for direct-mode READs and for CONT; only RESTORE, CLEAR and RUN move it back.
+    Oracle: the constants are the integers 101, 102, ... in source order, so every printed number names its own index."""
+    out = []
+    for _ in range(n):
+        total = rng.randint(4, 9)
+        consts = [101 + i for i in range(total)]
+        k = rng.randint(1, min(3, total - 2))
+        split = rng.randint(0, total)
+        lines = []
+        if split:
+            lines.append("5 DATA " + ",".join(str(c) for c in consts[:split]))
+        lines.append("10 " + ":".join("READ A:PRINT A" for _ in range(k)))
+        stopper = rng.choice(["STOP", "STOP", "END", "NEXT"])
+        lines.append("20 " + stopper)
+        lines.append("30 READ B:PRINT B")
+        lines.append("40 END")
+        if split < total:
+            lines.append("50 DATA " + ",".join(str(c) for c in consts[split:]))
+        calls = ["R5000"] + [sess.E(l) for l in lines] + [sess.E("RUN"), "R5000"]
+        expect = list(consts[:k])
+        pos = k
+        direct = []
+        for _ in range(rng.randint(1, 4)):
+            r = rng.random()
+            if r < 0.45 and pos < total:
+                calls += [sess.E("READ C:PRINT C"), "R5000"]
+                direct.append("READ C:PRINT C")
+                expect.append(consts[pos])
+                pos += 1
+            elif r < 0.6:
+                calls += [sess.E("PRINT 7"), "R5000"]
+                direct.append("PRINT 7")
+                expect.append(7)
+            elif r < 0.75:
+                calls += [sess.E("RESTORE:READ C:PRINT C"), "R5000"]
+                direct.append("RESTORE:READ C:PRINT C")
+                expect.append(consts[0])
+                pos = 1
+            elif r < 0.85:
+                calls += [sess.E("CLEAR"), "R5000"]
+                direct.append("CLEAR")
+                pos = 0
+                stopper = "done"        # CLEAR also forgets where to continue
+            elif stopper == "STOP" and pos < total:
+                calls += [sess.E("CONT"), "R5000"]
+                direct.append("CONT")
+                expect.append(consts[pos])
+                pos += 1
+                stopper = "done"
+        if pos < total:
+            calls += [sess.E("READ C:PRINT C"), "R5000"]
+            direct.append("READ C:PRINT C")
+            expect.append(consts[pos])
+        out.append(Case(sess.session(calls), sig="pointer: " + " / ".join(lines) + " ; RUN ; " + " ; ".join(direct),
+                        tag="pointer", meta=("pointer", expect)))
+    return out
+
+
 def gen(tier, rng):
-    cases = []
+    cases = pointer_sessions(rng, 150 if tier == "quick" else 4000)
     n = 400 if tier == "quick" else 15000
     for _ in range(n):
         final, history = gen_program(rng)
@@ -106,7 +166,22 @@ def gen(tier, rng):
     return cases
 
 
-monitor = semcheck.crash_monitor
+def monitor(case, r):
+    v = semcheck.crash_monitor(case, r)
+    if v:
+        return v
+    if case.meta and case.meta[0] == "pointer" and r is not None:
+        import re
+        import transcript
+        text = transcript.printed_text(transcript.split_events(r))
+        got = [int(x) for x in re.findall(r"(?<![\d.])-?\d+(?![\d.])", text.replace("64K BASIC", "").replace("0.7.1", ""))
+               if int(x) == 7 or 100 < int(x) < 200]
+        want = case.meta[1]
+        if got != want:
+            return "pointer: %s\n  must print the constants %s, printed %s" % (case.sig, want, got)
+    return None
+
+
 STATS = {}
 
 
